@@ -24,10 +24,11 @@ type rendHooks struct {
 	pins    map[string]*sym.Term
 	opaque  map[string]bool // functions (by Name()) kept as opaque pure calls
 	in      *sym.Interp
+	opaqueAs map[string]string // callee name -> "atom": its result is a fresh atom per call site instead of a call term
 }
 
 func (c *Ctx) newRendHooks(in *sym.Interp) *rendHooks {
-	h := &rendHooks{c: c, pins: map[string]*sym.Term{}, opaque: map[string]bool{}, in: in}
+	h := &rendHooks{c: c, pins: map[string]*sym.Term{}, opaque: map[string]bool{}, opaqueAs: map[string]string{}, in: in}
 	if n := c.Named("raster", "Rasterizer"); n != nil {
 		h.rasterT = n
 	}
@@ -80,6 +81,10 @@ func (h *rendHooks) Call(in *sym.Interp, fr *sym.Frame, site ssa.CallInstruction
 		in.Emit(fr, "opaquecall", site, callee.Name(), args, fr.Mem())
 		if rt == nil {
 			return true, nil
+		}
+		if strings.HasPrefix(h.opaqueAs[callee.Name()], "atom") {
+			// a compact stand-in for the result: one atom per call site, named after the callee
+			return true, sym.Atom(fmt.Sprintf("res@%s#%s#%d", callee.Name(), fr.ID, ordinal(site)), rt)
 		}
 		return true, sym.Call(callee.Name(), rt, args...)
 	}
